@@ -36,9 +36,9 @@ def _is_min(x, all_i, k):
     return S.sym_and(*c)
 
 
-def peaks(ctx, n, via_object=False, split=None):
+def peaks(ctx, n, via_object=False, split=None, kind='f'):
     pc = ctx.lib.fns.peaks_and_crossings
-    x = ctx.arr('x', n)
+    x = ctx.iarr('x', n, -5, 5) if kind == 'i' else ctx.arr('x', n)
     ctx.assume(S.sym_or(*[x[j] != x[0] for j in range(1, n)]))
     if via_object:
         sig = ctx.lib.Signal(x, 0.01)
@@ -103,3 +103,5 @@ def obligations(tier, seed):
             yield Ob('peaks', {'n': n}, timeout_s=1500)
     for n in (3, 5):
         yield Ob('peaks', {'n': n, 'via_object': True})
+    for n in (3, 4):
+        yield Ob('peaks', {'n': n, 'kind': 'i'})      # integer-dtype series
